@@ -1063,8 +1063,13 @@ peepProg(Foam prog,Bool foldfloats)
 	Bool	changed = false;
 	Foam	body = prog->foamProg.body;
 
-	if (foldfloats) peepBValTbl = &foamBValOpInfoTableFast[0];
-	else peepBValTbl = &foamBValOpInfoTableSlow[0];
+	/* -Qffold means "evaluate floating point constants"; it is no licence
+	 * to treat floats as a ring: 0.0 - x is not -x for x = 0.0, x * 0.0
+	 * is not 0.0 for negative x, x - x and x / x are not 0 and 1 for
+	 * infinities.  Always use the IEEE-careful table. */
+	(void) foldfloats;
+	(void) foamBValOpInfoTableFast;
+	peepBValTbl = &foamBValOpInfoTableSlow[0];
 
 	if (!optIsPeepPending(prog)) return prog;
 	optResetPeepPending(prog);
